@@ -3,9 +3,10 @@ import json, os, random, shutil
 from .. import common, family, mapcase
 
 PROPS_FILES = ['theories/Props/C09.v']
-FINDINGS_FILES = []
-LEVEL = 'other'
-TRUSTED = ['rdflib parsers (Turtle, N-Triples, RDF/XML) and SPARQL engine, the vocabulary rewrites of _r2rml_to_rml / _rml_legacy_to_rml: outside the Coq model, covered by this differential check only',
+FINDINGS_FILES = ['theories/Findings/C09.v']
+LEVEL = 'proof'
+TRUSTED = ['Model/Mapping.v: the abstract syntax identifies vocabularies and constant shortcuts (spellings); the theorems cover the three factorings (classes, subject graph maps, multi-valued maps) on the normalisation chain',
+           'rdflib parsers (Turtle, N-Triples, RDF/XML) and SPARQL engine, the vocabulary rewrites of _r2rml_to_rml / _rml_legacy_to_rml: outside the Coq model, covered by this differential check only',
            'harness/mapcase.py renderers: the equivalence of the spellings they produce is by construction (one abstract mapping)']
 ASSUMES = ['YARRRML is not rendered by the harness (not covered)']
 EX = mapcase.EX
